@@ -13,3 +13,10 @@ const (
 	VerifValCustodianNodeNewPrice      = custodianNodeNewPrice
 	VerifValCustodianNodeUpdatePrice   = custodianNodeUpdatePrice
 )
+
+// VerifValValidateInputs reaches the unexported input stage of Validate with the
+// transaction's own type and payload hash; it returns only the decision.
+func VerifValValidateInputs(ver *VersionedTransaction, store UTXOLockReader, fork bool) error {
+	_, _, err := ver.validateInputs(store, ver.PayloadHash(), ver.TransactionType(), fork)
+	return err
+}
